@@ -473,7 +473,7 @@ def contracts(engine, st: State, id_types: typing.List[str]) -> typing.List[Cont
         reserved = lambda x: " or ".join([kw(x)] + ([mem(x, union(pr))] if pr else []))  # noqa: E731
         clean = f"{mem('token', IDENT)} and not ({reserved('token')})" + (f" and not {mem('token', union(rs))}" if rs else "")
         reg(Contract(result=SStr, target=T + "strop", params={"self": S(), "token": SStr, "token_type": VStr(str_lit(t))}, requires=["len(token) > 0"],
-                     raises=[Raises("RuntimeError", "True", must=False)],
+                     raises=[Raises("RuntimeError", f"not ({clean})", must=False)],  # an error is an allowed outcome, but never for a clean identifier
                      ensures=[("result-is-a-syntactically-valid-identifier", mem("result", IDENT)),
                               ("result-is-not-a-reserved-identifier", f"not {kw('result')}"),
                               ("result-matches-no-reserved-pattern", f"not ({mem('result', union(pr))})" if pr else "True"),
